@@ -12,6 +12,8 @@ import (
 	"sync/atomic"
 	"time"
 
+	"github.com/tonistiigi/fsutil"
+	"github.com/tonistiigi/fsutil/types"
 	"verif/harness/disk"
 	"verif/harness/model"
 	"verif/harness/vt"
@@ -39,6 +41,9 @@ type syncInput struct {
 	SchedSeed int64 `json:"schedSeed,omitempty"`
 	DelayUS   int   `json:"delayUs,omitempty"`
 	Procs     int   `json:"procs,omitempty"`
+	// receiver-side Filter: "" | zeroOwner (uid,gid := 0) | stripWrite (mode &^ 0222 on files)
+	Filter    string `json:"filter,omitempty"`
+	ReqLateUS int    `json:"reqLateUs,omitempty"`
 }
 
 func runSyncInput(c *Ctx, caseNo int, in syncInput) ([]vt.Ev, *SyncResult, error) {
@@ -79,6 +84,17 @@ func runSyncInput(c *Ctx, caseNo int, in syncInput) ([]vt.Ev, *SyncResult, error
 			}
 		}
 	}
+	if in.ReqLateUS > 0 {
+		// only the receiver's REQ sends return late (after the request is visible to the sender)
+		d := time.Duration(in.ReqLateUS) * time.Microsecond
+		o.Gate = func(ep, op string, k int) {
+			if ep == "R" && op == "sent:REQ" {
+				time.Sleep(d)
+			}
+		}
+	}
+	o.Filter = filterByName(in.Filter)
+	o.Extra["filter"] = in.Filter
 	if in.Procs > 0 {
 		defer runtime.GOMAXPROCS(runtime.GOMAXPROCS(in.Procs))
 	}
@@ -276,8 +292,8 @@ func runHistory(c *Ctx, base int, in syncInput) ([]vt.Ev, error) {
 		if err != nil {
 			return nil, err
 		}
-		res, err := RunSync(base+k+1, src, dst, SyncOpts{Mode: "dirty", Differ: in.Differs[k], CapS2R: in.CapS, CapR2S: in.CapR,
-			Extra: vt.Ev{"input": vt.Opaque(step), "src": srcSnap.Ev(), "origin": in.Origin, "step": k, "ops": opsOrEmpty(in.HistOps[k])}})
+		res, err := RunSync(base+k+1, src, dst, SyncOpts{Mode: "dirty", Differ: in.Differs[k], CapS2R: in.CapS, CapR2S: in.CapR, Filter: filterByName(in.Filter),
+			Extra: vt.Ev{"input": vt.Opaque(step), "src": srcSnap.Ev(), "origin": in.Origin, "step": k, "ops": opsOrEmpty(in.HistOps[k]), "filter": in.Filter}})
 		if err != nil {
 			return nil, err
 		}
@@ -303,10 +319,42 @@ func syncHistories(c *Ctx) error {
 	}
 	o := genOpts{MaxEntries: 25, Special: true, Xattrs: true, Links: true, BigFiles: false, LongNames: false}
 	var hists []syncInput
-	// every single mutation kind on a fixed tree (deterministic part)
+	// deterministic part: every mutation kind applied to every entry of a fixed tree that has
+	// one entry of each type and a three-member hard-link group
+	{
+		mk := func(p string, size int, seed int64) model.Entry {
+			d := fileData(seed, size)
+			return model.Entry{Path: p, Type: "file", Perm: 0644, Size: int64(size), Data: d, DSeed: seed, Content: model.ContentID(d), Mtime: uniqueMtime()}
+		}
+		a := mk("a", 9, 11)
+		a.Group = 77
+		c1 := a
+		c1.Path = "c"
+		c2 := a
+		c2.Path = "d/z"
+		fixed := model.Tree{a, c1, {Path: "d", Type: "dir", Perm: 0755, Mtime: uniqueMtime()}, mk("d/x", 40000, 12), c2,
+			{Path: "dev", Type: "chr", Perm: 0660, Devmajor: 1, Devminor: 7, Mtime: uniqueMtime()},
+			mk("e", 3, 13), {Path: "f", Type: "fifo", Perm: 0644, Mtime: uniqueMtime()},
+			{Path: "l", Type: "symlink", Perm: 0777, Link: "e", Mtime: uniqueMtime()}}
+		fixed[6].Xattrs = map[string]string{"user.k": "v"}
+		fixed.Sort()
+		for i := range fixed {
+			for op := 0; op < numMutations; op++ {
+				next, ops := MutateAt(c.Rand, fixed, o, i, op)
+				if len(ops) == 0 {
+					continue
+				}
+				hists = append(hists, syncInput{Origin: "history/single", CapS: 8, CapR: 8, Hist: []model.Tree{fixed, next},
+					Differs: []string{"metadata", "metadata"}, HistOps: [][]string{{"initial"}, ops}})
+			}
+		}
+	}
 	for i := 0; i < nHist; i++ {
 		t0 := RandomTree(c.Rand, o)
 		h := syncInput{Origin: "history", CapS: []int{0, 2, 16, 64}[c.Rand.Intn(4)], CapR: []int{0, 2, 16, 64}[c.Rand.Intn(4)]}
+		if c.Rand.Intn(4) == 0 {
+			h.Filter = []string{"zeroOwner", "stripWrite"}[c.Rand.Intn(2)]
+		}
 		h.Hist = append(h.Hist, t0)
 		h.Differs = append(h.Differs, "metadata")
 		h.HistOps = append(h.HistOps, []string{"initial"})
@@ -435,6 +483,9 @@ func syncSchedules(c *Ctx) error {
 			in := syncInput{Src: src, Dst: dst, Mode: "dirty", Differ: "metadata", Origin: fmt.Sprintf("sched/case%d", ci),
 				CapS: []int{0, 1, 2, 7, 32, 64}[c.Rand.Intn(6)], CapR: []int{0, 1, 2, 7, 32, 64}[c.Rand.Intn(6)],
 				SchedSeed: c.Rand.Int63(), DelayUS: []int{0, 50, 300, 1500}[c.Rand.Intn(4)], Procs: []int{1, 2, 4, 16}[si%4]}
+			if si%6 == 5 {
+				in.DelayUS, in.ReqLateUS = 0, []int{1000, 3000, 6000}[c.Rand.Intn(3)]
+			}
 			evs, res, err := runSyncInput(c, c.NextCase(), in)
 			if err != nil {
 				return err
@@ -453,6 +504,26 @@ func syncSchedules(c *Ctx) error {
 			if si == 0 {
 				c.Stats.Sample(vt.Ev{"case": ci, "entries": len(src), "priorEntries": len(dst), "schedule": vt.Ev{"capS2R": in.CapS, "capR2S": in.CapR, "delayUs": in.DelayUS, "procs": in.Procs}})
 			}
+		}
+	}
+	return nil
+}
+
+// filterByName returns the receiver-side Filter (a pure, total function of the stat that the
+// specification mirrors in SyncTrace!FilterView).
+func filterByName(name string) fsutil.FilterFunc {
+	switch name {
+	case "zeroOwner":
+		return func(p string, st *types.Stat) bool {
+			st.Uid, st.Gid = 0, 0
+			return true
+		}
+	case "stripWrite":
+		return func(p string, st *types.Stat) bool {
+			if os.FileMode(st.Mode)&os.ModeType == 0 {
+				st.Mode &^= 0222
+			}
+			return true
 		}
 	}
 	return nil
